@@ -16,6 +16,6 @@ CheckB(r) ==
                       /\ Drift(P(r.d) = T(r.q)!OctDec(P(r.p), P(r.c)), "OctDec")
                       /\ Drift(T(r.q)!IsCanonical(P(r.o)) /\ T(r.q)!IsCanonical(P(r.p)), "canonical")
   ELSE TRUE
-Conforms == i <= N => (CheckA(Recs[i]) /\ CheckB(Recs[i]))
+Conforms == ti <= N => (CheckA(Recs[ti]) /\ CheckB(Recs[ti]))
 Spec == ShardInit /\ [][ShardNext]_tvars
 =============================================================================
